@@ -6,7 +6,15 @@
 * listmut  - the caller modifies the LIST returned by get_param_tensor_list (append / clear / reorder): the Packer still lists the original
              tensors and rebuilds correctly.
 
-Added after a seeding agent's side remarks on the unmodified tree (DESIGN 5b)."""
+* origmut  - the CALLER modifies nested containers / non-tensor content of its own object after Packer(obj) (append to a nested list, new key in a
+             nested dict, attribute of a nested object, a nested tensor slot replaced): "non-tensor content is copied" - the Packer must still
+             list the tensors and rebuild the structure as it was when it was packed, through both interfaces; shapes where the number of
+             top-level entries equals the number of tensor slots ("looks flat") are generated on purpose (round-5 seed);
+* flatsrc  - the flat interface with a supplied tensor that differs from the packed tensors in dtype and/or is part of an autograd graph,
+             incl. structures ALL of whose tensors have zero elements: every slot must hold the i-th chunk of the SUPPLIED tensor (shape of
+             the packed slot, dtype / requires_grad of the supplied tensor, never the original tensor object), aliased slots aliased again.
+
+Added after a seeding agent's side remarks on the unmodified tree (DESIGN 5b) and in seeding round 5."""
 import copy
 import random
 
@@ -67,7 +75,209 @@ def cases(seed, tier):
     for i in range(n):
         out.append({"group": "extra", "kind": ["empty", "listmut"][i % 2], "seed": sub_seed(seed, "c20x", i), "unique": (i // 2) % 2 == 0,
                     "mut": ["append", "clear", "reverse", "pop"][(i // 4) % 4]})
+    for i in range(n):
+        out.append({"group": "extra", "kind": "origmut", "seed": sub_seed(seed, "c20om", i), "unique": i % 2 == 0, "shape": i % len(OM_SHAPES),
+                    "mut": ["append", "setkey", "attr", "tensor", "clear"][(i // 2) % 5], "iface": ["list", "flat"][(i // 10) % 2]})
+        out.append({"group": "extra", "kind": "flatsrc", "seed": sub_seed(seed, "c20fs", i), "unique": i % 2 == 0, "allempty": (i // 2) % 3 == 0,
+                    "src_dtype": ["float64", "float32"][(i // 6) % 2], "src_grad": (i // 12) % 2 == 0, "shape": (i // 3) % len(OM_SHAPES)})
     return out
+
+
+# structures for origmut / flatsrc: t = list of tensors (t[0] may occur twice); several have as many top-level entries as tensor slots
+OM_SHAPES = [
+    lambda t: [[t[0], t[1]], {"k": 1}],                                              # 2 entries, 2 slots
+    lambda t: {"w": [t[0], t[1], t[2]], "opts": {"a": 1, "b": [1, 2]}, "scale": (1.0, 2.0)},   # 3 entries, 3 slots
+    lambda t: [Holder(p=t[0], q=[t[1], "s"]), [5, {"z": None}]],                     # 2 entries, 2 slots
+    lambda t: [t[0], [t[1], 3], t[0]],                                               # 3 entries, 3 slots (one tensor twice)
+    lambda t: {"a": [t[0], 1, {"x": t[1]}], "b": Holder(c=t[2], d="s")},             # 2 entries, 3 slots
+    lambda t: [t[0], t[1], t[2]],                                                    # really flat
+    lambda t: Holder(u=[t[0], [t[1], [t[2], 7]]], v={"m": {"n": [1]}}),
+    lambda t: {"x": {"y": {"z": [t[0], t[0], t[1]]}}, "l": [[], [[]]], "w": t[2]},   # 3 entries, 4 slots
+]
+
+
+def _sig(o, tid):
+    """nested signature of a structure; tensors are replaced by the index that `tid` (id -> index) gives them"""
+    if isinstance(o, torch.Tensor):
+        return ("T", tid.get(id(o), "foreign"))
+    if isinstance(o, Holder):
+        return ("O", _sig(o.__dict__, tid))
+    if isinstance(o, dict):
+        return ("D", [(k, _sig(v, tid)) for k, v in o.items()])
+    if isinstance(o, list):
+        return ("L", [_sig(v, tid) for v in o])
+    return ("leaf", type(o).__name__, repr(o))
+
+
+def _slots(o, acc=None):
+    acc = [] if acc is None else acc
+    if isinstance(o, torch.Tensor):
+        acc.append(o)
+    elif isinstance(o, Holder):
+        _slots(o.__dict__, acc)
+    elif isinstance(o, dict):
+        for v in o.values():
+            _slots(v, acc)
+    elif isinstance(o, list):
+        for v in o:
+            _slots(v, acc)
+    return acc
+
+
+def _nested_containers(o):
+    top = o
+    return [c for c in _containers(o) if c is not top and not (isinstance(top, Holder) and c is top.__dict__)]
+
+
+def run_origmut(desc, obs, rng, tg, uq, mech):
+    from xitorch._core.packer import Packer
+    t = [torch.randn(sh, generator=tg, dtype=DT) for sh in ((2,), (3,), (), (1, 2))]
+    obj = OM_SHAPES[desc["shape"]](t)
+    slots0 = _slots(obj)
+    uniq0 = []
+    for x in slots0:
+        if not any(x is y for y in uniq0):
+            uniq0.append(x)
+    want_list = uniq0 if uq else slots0
+    tid = {id(x): i for i, x in enumerate(want_list)}
+    if not uq:                                   # per-slot indices: the k-th slot holds supplied tensor k
+        sig0 = None
+    top_n = len(obj.__dict__) if isinstance(obj, Holder) else len(obj)
+    if top_n == len(slots0):
+        obs.count("extra_origmut_looks_flat")
+    mut = desc["mut"]
+    try:
+        p = Packer(obj)
+        if rng.random() < 0.5:
+            p.get_param_tensor_list(unique=uq)
+        # structure at pack time, with the tensors numbered by the position of the supplied tensor they must receive
+        new = [torch.randn(x.shape, generator=tg, dtype=DT) for x in want_list]
+        def expected_sig():
+            if uq:
+                return _sig(ref_obj, {id(x): i for i, x in enumerate(uniq0)})
+            cnt = [0]
+            def num(o):
+                if isinstance(o, torch.Tensor):
+                    cnt[0] += 1
+                    return ("T", cnt[0] - 1)
+                if isinstance(o, Holder):
+                    return ("O", num(o.__dict__))
+                if isinstance(o, dict):
+                    return ("D", [(k, num(v)) for k, v in o.items()])
+                if isinstance(o, list):
+                    return ("L", [num(v) for v in o])
+                return ("leaf", type(o).__name__, repr(o))
+            return num(ref_obj)
+        ref_obj = OM_SHAPES[desc["shape"]](t)    # an untouched twin built from the same tensors
+        want_sig = expected_sig()
+        # ---- the caller now modifies ITS object (nested content only - and, for "clear", also the top level)
+        nested = _nested_containers(obj)
+        done = 0
+        for c in nested:
+            if mut == "append" and isinstance(c, list):
+                c.append("ADDED"); done += 1
+            elif mut == "setkey" and isinstance(c, dict):
+                c["ADDED"] = 1; done += 1
+            elif mut == "attr" and isinstance(c, Holder):
+                c.ADDED = 1; done += 1
+            elif mut == "tensor" and isinstance(c, list) and any(isinstance(v, torch.Tensor) for v in c):
+                j = [i for i, v in enumerate(c) if isinstance(v, torch.Tensor)][0]
+                c[j] = torch.zeros(7, dtype=DT); done += 1
+            elif mut == "clear" and isinstance(c, (list, dict)) and len(c):
+                c.clear(); done += 1
+        if mut == "clear" and isinstance(obj, (list, dict)):
+            obj.clear(); done += 1
+        if not done:
+            for c in nested:
+                if isinstance(c, list):
+                    c.append("ADDED"); done += 1
+                elif isinstance(c, dict):
+                    c["ADDED"] = 1; done += 1
+        obs.count("extra_origmut_mutations", done)
+        lst = p.get_param_tensor_list(unique=uq)
+        obs.check(len(lst) == len(want_list) and all(a is b for a, b in zip(lst, want_list)), "extra:origmut:listing:%s:%s" % (mut, mech),
+                  "after the caller modified nested content of its object (%s) the Packer lists %d tensors (packed: %d) or other tensors" % (mut, len(lst), len(want_list)))
+        if desc["iface"] == "list":
+            r = p.construct_from_tensor_list(list(new), unique=uq)
+            got_sig = _sig(r, {id(x): i for i, x in enumerate(new)})
+        else:
+            p.get_param_tensor(unique=uq)
+            flat = torch.cat([x.reshape(-1) for x in new])
+            r = p.construct_from_tensor(flat, unique=uq)
+            # number the rebuilt tensors by value/shape match with the supplied chunks
+            sl = _slots(r)
+            tidr = {}
+            for x in sl:
+                for i, nx in enumerate(new):
+                    if x.shape == nx.shape and bool((x == nx).all()):
+                        tidr[id(x)] = i
+                        break
+            got_sig = _sig(r, tidr)
+        obs.check(got_sig == want_sig, "extra:origmut:rebuild:%s:%s:%s" % (mut, desc["iface"], mech),
+                  "a rebuild made after the caller modified nested content of its own object (%s) is not the structure that was packed: %r vs %r" % (mut, got_sig, want_sig))
+        ids_obj = {id(c) for c in _containers(obj)}
+        sh = [c for c in _containers(r) if id(c) in ids_obj]
+        obs.check(not sh, "extra:origmut:shares_original:%s" % mech, "the rebuilt structure contains %d container(s) of the caller's object" % len(sh))
+    except Exception as e:
+        obs.exc_violation("extra:origmut:call:%s:%s:%s" % (mut, desc["iface"], mech), e)
+    obs.count("extra_origmut_histories")
+    obs.nontrivial = True
+    return obs.result()
+
+
+def run_flatsrc(desc, obs, rng, tg, uq, mech):
+    from xitorch._core.packer import Packer
+    if desc["allempty"]:
+        shapes = [(0,), (2, 0), (0, 3), (0,)]
+        obs.count("extra_flatsrc_allempty")
+    else:
+        shapes = [(2,), (0,), (), (1, 2)] if rng.random() < 0.5 else [(2,), (3,), (), (1, 2)]
+    t = [torch.randn(sh, generator=tg, dtype=DT) for sh in shapes]
+    obj = OM_SHAPES[desc["shape"]](t)
+    slots0 = _slots(obj)
+    uniq0 = []
+    for x in slots0:
+        if not any(x is y for y in uniq0):
+            uniq0.append(x)
+    want_list = uniq0 if uq else slots0
+    sdt = getattr(torch, desc["src_dtype"])
+    tot = sum(x.numel() for x in want_list)
+    leaf = torch.randn(tot, generator=tg, dtype=torch.float64).to(sdt)
+    if desc["src_grad"]:
+        leaf.requires_grad_()
+        a = leaf * 2.0
+    else:
+        a = leaf
+    tag = "%s:%s:%s" % ("allempty" if desc["allempty"] else "mixed", desc["src_dtype"], "graph" if desc["src_grad"] else "plain")
+    try:
+        p = Packer(obj)
+        p.get_param_tensor(unique=uq)
+        r = p.construct_from_tensor(a, unique=uq)
+        got = _slots(r)
+        obs.check(len(got) == len(slots0), "extra:flatsrc:slot_count:%s:%s" % (tag, mech), "%d tensor slots after the rebuild, %d packed" % (len(got), len(slots0)))
+        if len(got) == len(slots0):
+            off, chunks = 0, []
+            for x in want_list:
+                chunks.append((off, x.numel(), x.shape))
+                off += x.numel()
+            for i, g in enumerate(got):
+                j = [k for k, y in enumerate(uniq0) if y is slots0[i]][0] if uq else i
+                o_, n_, shp = chunks[j]
+                ok = (g.shape == shp and g.dtype == a.dtype and g.requires_grad == a.requires_grad
+                      and not any(g is y for y in slots0) and bool((g.detach().reshape(-1) == a.detach()[o_:o_ + n_]).all()))
+                obs.check(ok, "extra:flatsrc:slot_content:%s:%s" % (tag, mech),
+                          "slot %d is not chunk %d of the supplied tensor: shape %s (want %s), dtype %s (supplied %s), requires_grad %s (supplied %s), is a packed tensor: %s"
+                          % (i, j, tuple(g.shape), tuple(shp), g.dtype, a.dtype, g.requires_grad, a.requires_grad, any(g is y for y in slots0)))
+            if uq:
+                for i, g in enumerate(got):
+                    k0 = [k for k in range(len(slots0)) if slots0[k] is slots0[i]][0]
+                    obs.check(g is got[k0], "extra:flatsrc:alias_lost:%s" % mech, "aliased slots %d and %d are different objects after the rebuild" % (i, k0))
+        obs.check(all(a_ is b_ for a_, b_ in zip(_slots(obj), slots0)), "extra:flatsrc:input_modified:%s" % mech, "the caller's structure holds other tensors")
+    except Exception as e:
+        obs.exc_violation("extra:flatsrc:call:%s:%s" % (tag, mech), e)
+    obs.count("extra_flatsrc_histories")
+    obs.nontrivial = True
+    return obs.result()
 
 
 def run_case(desc):
@@ -77,6 +287,10 @@ def run_case(desc):
     tg = torch.Generator().manual_seed(desc["seed"])
     uq = bool(desc["unique"])
     mech = "%s:%s" % (desc["kind"], "unique" if uq else "all")
+    if desc["kind"] == "origmut":
+        return run_origmut(desc, obs, rng, tg, uq, "unique" if uq else "all")
+    if desc["kind"] == "flatsrc":
+        return run_flatsrc(desc, obs, rng, tg, uq, "unique" if uq else "all")
     if desc["kind"] == "empty":
         obj = _empty_struct(rng)
         if not isinstance(obj, (list, dict, Holder)):
